@@ -57,6 +57,14 @@ def popLive (m : OMap) : List Id → Option (Order × OMap × List Id)
     | some o => some (o, m.erase t, ts)
     | none => popLive m ts
 
+/-- the order in which successive `pop`s would hand out the current orders -/
+def liveOrder (m : OMap) : List Id → List Order
+  | [] => []
+  | t :: ts =>
+    match m.find t with
+    | some o => o :: liveOrder (m.erase t) ts
+    | none => liveOrder m ts
+
 structure Q where
   map     : OMap := []
   tickets : List Id := []
